@@ -30,6 +30,7 @@ func init() {
 							c := cs("H_C19_Csv", shape, hdr, nrec, nf)
 							c.Cert, c.TrackMem = true, true
 							c.Weight = pow3(nrec) * (1 + nrec)
+							c.MaxPaths = 20000
 							out = append(out, c)
 						}
 					}
